@@ -96,6 +96,19 @@ Theorem C26_int_side_cols_preserved_partial :
 Proof. exact mprod_side_cols. Qed.
 Print Assumptions C26_int_side_cols_preserved_partial.
 
+(* project_to_side_grids: in every state the side restrictions pick every mortar cell exactly
+   once, side after side (their columns, concatenated, are 0..num_cells-1 — the offset of a
+   side is the cumulative cell count of the preceding sides, whatever their sizes), row r of
+   a side is its r-th cell and all weights are 1.  So "per side" in the oracle/tie and "through
+   project_to_side_grids" are the same restriction. *)
+Theorem C26_side_restrictions_partition :
+  forall s,
+    map ecol (concat (project_to_side_grids s)) = seq 0 (n_mortar s) /\
+    Forall (fun e => ewt e = 1) (concat (project_to_side_grids s)) /\
+    map (map erow) (project_to_side_grids s) = map (fun g => seq 0 (length g)) (sides s).
+Proof. exact project_to_side_grids_partition. Qed.
+Print Assumptions C26_side_restrictions_partition.
+
 (* The updates raise IndexError only for zero-length cells in both grids of a pair. *)
 Theorem C26_update_error :
   forall nrm tol sc new old e,
